@@ -78,6 +78,7 @@ impl ScriptIo {
 
 impl Read for ScriptIo {
     fn read(&mut self, buf: &mut [u8]) -> io::Result<usize> {
+        slow_port_block();
         let idx = self.rcalls;
         self.rcalls += 1;
         let mut ans = self.rscript.get(idx).cloned().unwrap_or_else(|| self.rdefault.clone());
@@ -106,6 +107,7 @@ impl Read for ScriptIo {
 
 impl Write for ScriptIo {
     fn write(&mut self, buf: &[u8]) -> io::Result<usize> {
+        slow_port_block();
         let idx = self.wcalls;
         self.wcalls += 1;
         let ans = self.wscript.get(idx).cloned().unwrap_or(WAns::Accept(usize::MAX));
@@ -340,6 +342,23 @@ pub struct Exchange {
 pub struct SerialRun {
     pub exchanges: Vec<Exchange>,
     pub setup_ok: bool,
+}
+
+thread_local! {
+    /// Real time every port read/write call of a ScriptIo blocks for before answering (a port that is not instantaneous).
+    static SLOW_PORT: std::cell::Cell<Duration> = const { std::cell::Cell::new(Duration::ZERO) };
+}
+
+/// Makes every ScriptIo read/write call on this thread block for `d` of real time before it answers (ZERO = off).
+pub fn set_slow_port(d: Duration) {
+    SLOW_PORT.with(|c| c.set(d));
+}
+
+fn slow_port_block() {
+    let d = SLOW_PORT.with(|c| c.get());
+    if !d.is_zero() {
+        std::thread::sleep(d);
+    }
 }
 
 thread_local! {
